@@ -262,17 +262,61 @@ def summarize(args, prop, results, reg, known, kmap, seed, wall, timeout_ms):
     if getattr(args, "v", False):
         for cname, cs in sorted(clause_status.items()):
             print("   %-90s %d/%d %s" % (cname, cs["unsat"], cs["total"], "PROP" if cs["prop"] else ""))
+    selftest = None
+    if args.tier == "thorough" and not args.unit and args.repo == "/repo" and rc == 0 and not os.environ.get("PYVC_IN_SELFTEST"):
+        selftest = mutation_selftest(prop, args)
+        for sid, st in selftest.items():
+            if st.get("expected_detected") and not st.get("detected"):
+                print("SELFTEST-REGRESSION %s: the seeded change %s is no longer reported by this check (exit %s)"
+                      % (prop, sid, st.get("rc")))
+                rc = max(rc, 3)
     if getattr(args, "write_baseline", False) and rc == 0 and not args.unit and args.repo == "/repo":
         os.makedirs(os.path.join(ROOT, "baseline"), exist_ok=True)
         json.dump(new_base, open(base_path, "w"), indent=0, sort_keys=True)
     if not args.unit and args.repo == "/repo":
         write_evidence(args, prop, reg, units, n_ob, n_dis, backend, solver_time, samples, bounded_out,
-                       violations, known_hits, undecided, seed, wall, clause_status)
+                       violations, known_hits, undecided, seed, wall, clause_status, selftest, results)
     return rc
 
 
+def mutation_selftest(prop, args):
+    """Thorough tier only - a self-test of the machinery, not evidence for the property: every seeded breaking change of
+    this property that the quick check is recorded to report (seeded/RESULTS.json) is applied to a scratch COPY of
+    /repo's working tree (outside /repo and /verif, removed afterwards) and must be reported again."""
+    import shutil
+    import tempfile
+    out = {}
+    respath = os.path.join(ROOT, "seeded", "RESULTS.json")
+    if not os.path.exists(respath):
+        return out
+    res = json.load(open(respath))
+    for sid, r in sorted(res.items()):
+        own = r.get("checks", {}).get(prop)
+        if not own or own.get("rc") != 1:
+            continue
+        patch = os.path.join(ROOT, "seeded", sid, "patch.diff")
+        if not os.path.exists(patch):
+            continue
+        scratch = tempfile.mkdtemp(prefix="pyvc_mut_")
+        try:
+            shutil.copytree(os.path.join(args.repo, "nixio"), os.path.join(scratch, "nixio"),
+                            ignore=shutil.ignore_patterns("__pycache__", "*.pyc", "test"))
+            a = subprocess.run(["git", "apply", "-C1", patch], cwd=scratch, capture_output=True, text=True)
+            if a.returncode != 0:
+                out[sid] = dict(expected_detected=False, note="patch does not apply to the current tree")
+                continue
+            r2 = subprocess.run([os.path.join(ROOT, "check"), prop, "--tier", "quick", "--repo", scratch, "--jobs", str(args.jobs)],
+                                cwd=ROOT, capture_output=True, text=True, env=dict(os.environ, PYVC_IN_SELFTEST="1"))
+            lines = [ln[:300] for ln in r2.stdout.splitlines() if ln.startswith("VIOLATION")]
+            out[sid] = dict(expected_detected=True, detected=(r2.returncode == 1 and bool(lines)), rc=r2.returncode,
+                            reported=lines[:3])
+        finally:
+            shutil.rmtree(scratch, ignore_errors=True)
+    return out
+
+
 def write_evidence(args, prop, reg, units, n_ob, n_dis, backend, solver_time, samples, bounded_out,
-                   violations, known_hits, undecided, seed, wall, clause_status):
+                   violations, known_hits, undecided, seed, wall, clause_status, selftest=None, results=None):
     assumed = sorted(qn for qn, c in reg.contracts.items() if c.assumed and (prop in c.props or not c.props))
     trusted = ["z3 %s (SMT back end); cvc5 1.0.3 for z3 'unknown'" % __import__("z3").get_version_string(),
                "pyvc symbolic executor + VC generator (/verif/pyvc), encoding assumptions of DESIGN.md section 2 "
@@ -293,6 +337,8 @@ def write_evidence(args, prop, reg, units, n_ob, n_dis, backend, solver_time, sa
             "known_findings_excluded": [dict(clause=c, findings=[k["what"] for k in kfs]) for c, kfs in known_hits],
             "undecided": [list(u) for u in undecided],
             "samples": samples or [dict(note="no sample recorded")],
+            "second_solver": second_solver_counts(results),
+            "mutation_selftest": selftest if selftest is not None else "thorough tier only",
         },
         "assumptions": trusted + PROP_ASSUMPTIONS.get(prop, []),
         "wall_s": round(wall, 2),
@@ -301,6 +347,18 @@ def write_evidence(args, prop, reg, units, n_ob, n_dis, backend, solver_time, sa
     os.makedirs(os.path.join(ROOT, "evidence"), exist_ok=True)
     with open(os.path.join(ROOT, "evidence", "%s.json" % prop), "w") as f:
         json.dump(ev, f, indent=1, default=str)
+
+
+def second_solver_counts(results):
+    if not results:
+        return "thorough tier only"
+    c = {}
+    for r in results:
+        for ob in (r or {}).get("obligations", []):
+            k = ob.get("second_solver")
+            if k:
+                c[k] = c.get(k, 0) + 1
+    return c or "thorough tier only"
 
 
 PROP_ASSUMPTIONS = {}
